@@ -45,7 +45,7 @@ namespace igris
 
         explicit flat_set(const Compare &comp,
                           const Allocator &alloc = Allocator())
-            : _vec(alloc)
+            : _vec(alloc), _comp(comp)
         {
             _vec.reserve(16);
         }
